@@ -104,6 +104,30 @@ theorem mem_claims {c : Claim} {tasks : List Task} :
       · exact Or.inl ⟨kv, hkv, rfl⟩
       · exact Or.inr ⟨t', ht', kv, hkv, rfl⟩
 
+theorem isAlias_aliasKey (g : String) : isAlias (aliasKey g) = true := by
+  simp [isAlias, aliasKey, hasPrefix, String.toList_append]
+
+theorem mem_allDeclClaims {c : Claim} {tasks : List Task} :
+    c ∈ allDeclClaims tasks ↔ ∃ t ∈ tasks, c ∈ declClaims t := by
+  induction tasks with
+  | nil => simp [allDeclClaims]
+  | cons t ts ih => simp [allDeclClaims, ih]
+
+theorem mem_declClaims {c : Claim} {t : Task} (h : c ∈ declClaims t) :
+    ∃ ch ∈ t.inbound, ch.global.isEmpty = false ∧ Assoc.get t.loc ch.name = some c.raw ∧
+      c.key = aliasKey ch.global ∧ c.host = t.host := by
+  simp only [declClaims, List.mem_filterMap] at h
+  obtain ⟨ch, hch, hc⟩ := h
+  split at hc
+  · cases hc
+  · rename_i hg
+    cases hget : Assoc.get t.loc ch.name with
+    | none => simp [hget] at hc
+    | some e =>
+      simp only [hget, Option.map_some, Option.some.injEq] at hc
+      subst hc
+      exact ⟨ch, hch, by simpa using hg, hget, rfl, rfl⟩
+
 /-- A claim is sane if its alias flag is what its key looks like. -/
 def sane (c : Claim) : Bool := c.alias == isAlias c.key
 
